@@ -197,9 +197,13 @@ def rootOf (ver : Nat) (s : State) : Root :=
 def entriesOf {P : Type} [DecidableEq P] (h : Map (P × Nat) Nat) (p : P) : List (Nat × Nat) :=
   (h.filter (fun e => e.1.1 = p)).map (fun e => (e.1.2, e.2))
 
-/-- new backend `valueAt`: the entry at `n`, else the last one before it -/
-def valueAtNew {P : Type} [DecidableEq P] (h : Map (P × Nat) Nat) (p : P) (n : Nat) : Option Nat :=
-  (((entriesOf h p).filter (fun e => e.1 ≤ n)).getLast?).map (fun e => e.2)
+/-- new backend `valueAt` (`Seek (prefix, n)`; on a miss `Prev`): the entry at `n`, else the
+closest entry below it -/
+def valueAtNew {P : Type} [DecidableEq P] (h : Map (P × Nat) Nat) (p : P) : Nat → Option Nat
+  | 0 => Map.get h (p, 0)
+  | n + 1 => match Map.get h (p, n + 1) with
+    | some v => some v
+    | none => valueAtNew h p n
 
 /-- legacy backend `valueAt`: the first entry strictly above `n` (the old value logged there);
 `none` is `ErrCheckHeadState` -/
